@@ -295,6 +295,10 @@ def call_by_contract(it, c, fn, bound):
                     if 'frame' in signature(efn).parameters:
                         continue
                     ctx.assume(it.truth(eval_clause(it, efn, ns_e)))
+                # the callee also proves its class invariant on exceptional exits (excinv)
+                if cc is not None and cc.inv is not None and c.check_inv and not c.is_init and \
+                        'self' in ns:
+                    ctx.assume(it.truth(run_inv(it, cc, ns['self'])))
             finally:
                 it.assuming -= 1
             raise I.PyRaise(exc_cls, ('<by contract>',))
@@ -397,7 +401,10 @@ def _same_except(it, v, ov, paths, prefix):
     if fv is None or fo is None:
         return deep_same(it, v, ov)
     out = []
+    skip = getattr(v, 'aliases', ())
     for k in fv:
+        if k in skip:
+            continue                 # an alias of another field of the same object
         if k not in fo:
             out.append(False)
             continue
@@ -438,7 +445,8 @@ def separation_ok(root):
             return False
         seen.add(v.oid)
         if isinstance(v, SObj):
-            stack.extend(v.fields.values())
+            skip = getattr(v, 'aliases', ())
+            stack.extend(x for k, x in v.fields.items() if k not in skip)
         elif isinstance(v, SDict):
             stack.extend(v.d.values())
         elif isinstance(v, SList):
@@ -634,6 +642,17 @@ def intrinsic(it, name, args, kwargs):
         return json_conforms(it, args[0], args[1], '$')
     if name == 'json_text':
         return it.models_mod._json_dumps(it, args[0])
+    if name == 'starts_with':
+        from .strings import XStr
+        x, lit = args
+        if isinstance(x, str):
+            return x.startswith(lit)
+        if isinstance(x, XStr) and x.segs and x.segs[0][0] is True and isinstance(x.segs[0][1], str) \
+                and len(x.segs[0][1]) >= len(lit):
+            return x.segs[0][1].startswith(lit)
+        if isinstance(x, XStr) and x.alts is not None:
+            return b_or(*[g for g, t in x.alts if t.startswith(lit)])
+        raise EngineError(f'starts_with({x!r}, {lit!r})')
     if name == 'run_real':
         f = args[0]
         f = getattr(f, '__func__', f)
@@ -830,7 +849,9 @@ def deep_same(it, a, b, seen=None):
         if key in seen:
             return True
         seen.add(key)
-        return b_and(*[deep_same(it, a.fields[k], b.fields[k], seen) for k in a.fields])
+        skip = getattr(a, 'aliases', ()) or getattr(b, 'aliases', ())
+        return b_and(*[deep_same(it, a.fields[k], b.fields[k], seen) for k in a.fields
+                       if k not in skip])
     if isinstance(a, SDict) and isinstance(b, SDict):
         if list(a.d.keys()) != list(b.d.keys()):
             return False
